@@ -615,7 +615,7 @@ impl C08 {
 
 impl Monitor for C08 {
     fn total_cases(&self) -> u64 {
-        self.tier.pick(30_000, 1_000_000)
+        self.tier.pick(90_000, 2_000_000)
     }
     fn run_case(&mut self, k: u64, rng: &mut Rng, col: &mut Collector) {
         if k % 3 == 2 {
